@@ -15,9 +15,16 @@ LEVEL = "proof"
 MATCHERS: Dict[str, Any] = {}
 TRUSTED = [
     "Lean 4.33.0 kernel; axioms propext / Classical.choice / Quot.sound only (audited by #print axioms)",
-    "harness/valid_corr.py: materialises abstract values as real Python objects, canonicalises read-backs",
-    "ctypes: field / array-element setters as modelled by `elemStore` / `storeMany` (element-wise, may stop half way); "
-    "float32 rounding of the C cast (model `narrow`, compared bit for bit; nearest-ness checked by the Spec on every case)",
+    "harness/valid_corr.py: materialises abstract values as real Python objects, canonicalises read-backs, walks programs "
+    "(real `with` / try / except) and reports the lexical disable depth of every executed assignment",
+    "ctypes: field / array-element setters as modelled by `elemStore` / `storeMany` (element-wise, may stop half way); offset "
+    "arithmetic for nested structs / struct-array elements (the whole message buffer is compared: projection `message`)",
+    "float rounding: `roundMag` is opaque; the float theorems rest on the named hypotheses `RoundHyp` "
+    "(Proofs/ValidatorsFloat.lean: nearest32/64, overflow32/64, widenExact, intExact, bigIntNarrow) - not proved, evaluated "
+    "by the driver at the operands of every generated float case (`round_hyp_instances_evaluated`) and bit patterns "
+    "compared with ctypes",
+    "tyWF / valWF (Spec/ValidatorsExt.lean): a `bytes` consists of bytes, a ctypes / struct instance has the size of its "
+    "class, a double has 64 bits, String(n) has n > 1, an array descriptor class goes with its kind of element validator",
 ]
 
 FILLS = [b"", bytes([0x5A, 0x21, 0x7E, 0x33, 0x41, 0x62, 0x07])]
@@ -345,7 +352,9 @@ def _rand_rhs(rng, fty, allow_whole: bool):
             n = 1 if fty[0] == "char" else fty[1] - 1
             pool = [("s", [rng.randrange(32, 127) for _ in range(rng.randint(1 if fty[0] == "char" else 0, n))])]
         else:
-            pool = VC.scalar_pool(fty)
+            # (`.other` stands for "no number at all": a Fraction has `__float__`, which the bare ctypes float setter -
+            # reached inside a disable block - would accept)
+            pool = [x for x in VC.scalar_pool(fty) if not (fty[0] == "flt" and x == ("o", "frac"))]
         return ("whole",), ("S", rng.choice(pool))
     _, cls, vk, n = fty
     r = rng.random()
